@@ -30,7 +30,7 @@ for pid in sorted(plan.PROPS):
             'design_ref': 'DESIGN.md section 7, %s' % pid,
         },
         'level_note': '; '.join(spec.get('assumptions', []))[:1500],
-        'technique': 'bounded model checking of the compiled Rust (Kani 0.68 / CBMC 6.11 / CaDiCaL) with harness-local '
+        'technique': spec.get('technique') or 'bounded model checking of the compiled Rust (Kani 0.68 / CBMC 6.11 / CaDiCaL) with harness-local '
                      'reference oracles' + ('; loop bodies lifted textually from /repo at run time' if any(
                          h['module'] in ('decoder_seg', 'decoder_line', 'hermes_fm', 'hermes_line', 'types_flat')
                          for h in spec['harnesses']) else ''),
